@@ -22,6 +22,15 @@ def _build(c, dst):
     dt = np.dtype(c["dtype"])
     rng = np.random.default_rng(h * 1000 + w)
     base = rng.integers(1, 100, size=(ns, h, w)) if dt.kind != "f" else rng.random((ns, h, w)) * 100
+    # pixel pattern (decides the SIZE of the compressed tiles, hence where the multi-part writer spills and merges): random small numbers,
+    # one constant (tiles of a few bytes: many tiles per part), or noise over the whole value range (incompressible)
+    pat = (h * 7 + w + ns + len(c["blocks"])) % 4
+    if pat == 1:
+        base = np.full((ns, h, w), 7) if dt.kind != "f" else np.full((ns, h, w), 7.5)
+        base[:, h // 2, w // 3] = 9
+    elif pat == 2 and dt.kind != "f":
+        info = np.iinfo(dt)
+        base = rng.integers(info.min, int(info.max) + 1, size=(ns, h, w), dtype="int64")
     data = base.astype(dt)
     kw = {}
     if c["nodata"]:
